@@ -1,6 +1,7 @@
 mod c01;
 mod c02;
 mod c03;
+mod c05;
 mod c07;
 mod c08;
 mod c09;
@@ -28,11 +29,16 @@ fn main() {
         Some("thorough") => Tier::Thorough,
         _ => Tier::Quick,
     };
-    rayon::ThreadPoolBuilder::new().stack_size(1 << 30).build_global().expect("thread pool");
+    rayon::ThreadPoolBuilder::new().stack_size(1 << 30).start_handler(|_| ev::thread_altstack()).build_global().expect("thread pool");
+    if cmd != "c05-child" {
+        ev::install_crash_handler();
+    }
     match cmd {
         "c01" => c01::main(tier),
         "c02" => c02::main(tier),
         "c03" => c03::main(tier),
+        "c05" => c05::main(tier),
+        "c05-child" => c05::child(&args[2..]),
         "c07" => c07::main(tier),
         "c08" => c08::main(tier),
         "c09" => c09::main(tier),
